@@ -302,6 +302,29 @@ def run_rec(ctx, exe, scns, tag, nshards=None, timeout=900):
     return files
 
 
+def split_big(files, maxlines=60000):
+    """TLC's per-event cost grows with the length of the deserialized trace; files longer than maxlines are cut at
+    execution boundaries (Reset lines) into pieces judged by separate TLC runs.  Nothing is dropped."""
+    out = []
+    for f in files:
+        if not os.path.exists(f) or os.path.getsize(f) < maxlines * 40:
+            out.append(f); continue
+        n = sum(1 for _ in open(f))
+        if n <= maxlines:
+            out.append(f); continue
+        part = 0; cnt = 0; fh = None
+        for ln in open(f):
+            if fh is None or (cnt >= maxlines and ln.startswith('{"e":"Reset"')):
+                if fh:
+                    fh.close()
+                name = "%s.p%d.ndjson" % (f[:-7] if f.endswith(".ndjson") else f, part)
+                fh = open(name, "w"); out.append(name); part += 1; cnt = 0
+            fh.write(ln); cnt += 1
+        if fh:
+            fh.close()
+    return out
+
+
 def judge_obs(ctx, files, props, timeout=1500):
     """TLC folds every event of every trace file through the observers; returns (executions, events, violation records)
     restricted to clauses of the given property ids."""
@@ -310,6 +333,7 @@ def judge_obs(ctx, files, props, timeout=1500):
             return None
         return vlib.run_tlc(ctx, "HtpObsTrace", "HtpObsTrace.cfg", env={"TRACE": f}, workers=1, timeout=timeout, xmx="4g", name="obs_" + os.path.basename(f))
     t = time.time()
+    files = split_big(files)
     res = vlib.pmap(one, files)
     execs = events = 0
     recs = []
